@@ -44,6 +44,7 @@ type Task struct {
 	prio      int
 	seen      bool
 	holdUntil int
+	atomic    int
 	hotSeen   int
 }
 
@@ -251,10 +252,27 @@ func Yield(site string) {
 		return
 	}
 	t := w.self()
-	if !t.Owned {
+	if !t.Owned || t.atomic > 0 {
 		return
 	}
 	w.park(t, site)
+}
+
+// AtomicEnter / AtomicLeave bracket a database transaction callback (inserted
+// by the instrumenter into function literals passed to Update/View/Batch):
+// bbolt holds real locks around the callback, so the task must not be
+// descheduled inside it - which is also what the transaction promises
+// (writers are serialised, readers see a snapshot).
+func AtomicEnter() {
+	if w := W; w != nil {
+		w.self().atomic++
+	}
+}
+
+func AtomicLeave() {
+	if w := W; w != nil {
+		w.self().atomic--
+	}
 }
 
 func (w *World) runTask(t *Task, site string, fn func()) {
